@@ -314,12 +314,12 @@ def run(ctx):
     ctx.sample("cookie", {"name": "sid", "value": "v; Domain=evil.example"})
     ctx.sample("redirect", {"target": "/next?x=\r\nLocation: http://evil"})
     # --- random sequences and longer strings
-    for i in range(ctx.scale(3000, 100_000)):
+    for i in range(ctx.scale(3000, 400_000)):
         case = check_sequence(ctx, rng)
         ctx.case(repr(case))
         if i < 1:
             ctx.sample("random-op-sequence", case)
-    for i in range(ctx.scale(3000, 100_000)):
+    for i in range(ctx.scale(3000, 400_000)):
         s = "".join(rng.choice(SPECIAL + ["b", "c", "é", "x", "Set-Cookie: a=b", "; Secure", "; Domain=evil"]) for _ in range(rng.randrange(1, 12)))
         kw = {"max_age": rng.choice([-1, 0, 5]), "httponly": rng.random() < 0.3, "samesite": rng.choice(["lax", "strict", "none"])}
         if rng.random() < 0.5:
